@@ -5,6 +5,9 @@ VERIF = os.path.dirname(os.path.dirname(os.path.abspath(__file__)))
 REPO = os.environ.get("VERIF_REPO", "/repo")
 COQ = os.path.join(VERIF, "coq")
 BUILD = os.path.join(VERIF, "build")
+# scratch evaluations (mutation testing) redirect evidence/replays and tag their builds
+OUTDIR = os.environ.get("VERIF_OUTDIR", VERIF)
+BUILD_TAG = os.environ.get("VERIF_BUILD_TAG", "")
 GOENV = dict(os.environ, GOFLAGS="-mod=mod", GOPROXY="off", GOSUMDB="off", GOTOOLCHAIN="local")
 NCPU = os.cpu_count() or 4
 
@@ -125,7 +128,7 @@ def register_overlay(fname, pkgdir, injected):
 
 def build_go(tag):
     """Builds the white-box harness test binary for ./snaps from REPO's current working tree."""
-    out_dir = os.path.join(BUILD, "go", tag)
+    out_dir = os.path.join(BUILD, "go", tag + BUILD_TAG)
     os.makedirs(out_dir, exist_ok=True)
     wb = os.path.join(VERIF, "harness", "whitebox")
     repl = {}
@@ -357,17 +360,17 @@ def load_known(pid):
 
 # ---------------------------------------------------------------- evidence / verdict
 def write_evidence(pid, tier, seed, coverage, assumptions, wall, violations):
-    os.makedirs(os.path.join(VERIF, "evidence"), exist_ok=True)
+    os.makedirs(os.path.join(OUTDIR, "evidence"), exist_ok=True)
     ev = {"property_id": pid, "tier": tier, "seed": seed, "level": "proof", "coverage": coverage,
           "assumptions": assumptions, "wall_s": round(wall, 2), "violations": violations}
-    with open(os.path.join(VERIF, "evidence", pid + ".json"), "w") as fh:
+    with open(os.path.join(OUTDIR, "evidence", pid + ".json"), "w") as fh:
         json.dump(ev, fh, indent=1)
 
 
 def write_replay(pid, payload):
-    os.makedirs(os.path.join(VERIF, "replays"), exist_ok=True)
+    os.makedirs(os.path.join(OUTDIR, "replays"), exist_ok=True)
     h = hashlib.sha256(json.dumps(payload, sort_keys=True).encode()).hexdigest()[:12]
-    path = os.path.join(VERIF, "replays", "%s-%s.json" % (pid, h))
+    path = os.path.join(OUTDIR, "replays", "%s-%s.json" % (pid, h))
     with open(path, "w") as fh:
         json.dump(payload, fh, indent=1)
     return path
